@@ -156,6 +156,10 @@ static void body(void) {
   static char TK[200]; snprintf(TK, sizeof TK, "nonterm|PCA|scaling=%d", scaling); fit_begin(nproc, real_threads, TK);
   PCA(mx, scaling, (size_t)a, mod, NULL); vx_transition(1);
   long iters = H_KERNEL_CALLS / 2;
+  /* which other previous output shape the reused-output checks of this execution try (0 rows differ, 1 columns differ, 2 both):
+   * rotates over the choices so that consecutive npc / processor counts / inputs take consecutive shapes */
+  int rot = (sh + fam + scaling + 1 + off + spr + cc + nproc + a) % 3;
+  static const char *OTHER_HOW[3] = {"held the result for another number of objects", "held a matrix with another number of columns", "held a matrix with other numbers of rows and columns"};
   if (nproc > 1) { snprintf(key, sizeof key, "seam|PCA|nproc=%d", nproc); vx_check(H_WORKERS == H_KERNEL_CALLS * nproc, key, "expected %ld worker launches, saw %ld", H_KERNEL_CALLS * nproc, H_WORKERS); }
   vx_log("PCA (%dx%d) scaling %d npc %d nproc %d%s: %ld NIPALS iterations, rank %d, kappa_npc %.3Lg, sigma1 %.3Lg\n", n, p, scaling, a, nproc, real_threads ? " (real threads)" : "", iters, rank, kappa, sv[0]);
 
@@ -214,16 +218,17 @@ static void body(void) {
       vx_check(dg <= tol_g, key, "(%dx%d) scaling %d npc %d: max |GetResidualMatrix - (E - TP')| = %g, allowance %g", n, p, scaling, a, dg, tol_g);
       margin_note("resid-api", dg, tol_g);
       vx_log("GetResidualMatrix: diff %g allowance %g\n", dg, tol_g);
-      /* reused output (see "reused outputs" above): rmx is n x p whatever pc is */
-      { matrix *want = hm_copy(rmx), *sub = m_toprows(mx, n - 1), *o1, *o2 = m_junk(n, p + 1), *o3 = m_junk(n + 2, p + 3); initMatrix(&o1);
+      /* reused output (see "reused outputs" above): rmx is n x p whatever pc is.  The judged object again (and after a call with pc-1),
+       * then ONE other previous shape, in rotation (rot, see below) */
+      { matrix *want = hm_copy(rmx), *o;
         GetResidualMatrix(mx, mod, (size_t)a, rmx); int ok = m_same(rmx, want);
         if (a > 1) { GetResidualMatrix(mx, mod, (size_t)(a - 1), rmx); GetResidualMatrix(mx, mod, (size_t)a, rmx); ok = ok && m_same(rmx, want); vx_transition(1); }
         reuse_verdict("GetResidualMatrix", "same-shape", ok, n, p, scaling, a, rmx, want, "holds an earlier result of the same shape");
-        GetResidualMatrix(sub, mod, (size_t)a, o1); GetResidualMatrix(mx, mod, (size_t)a, o1); GetResidualMatrix(mx, mod, (size_t)a, o2);
-        reuse_verdict("GetResidualMatrix", "one-dim-differs", m_same(o1, want) && m_same(o2, want), n, p, scaling, a, m_same(o1, want) ? o2 : o1, want, "held a matrix with another number of rows (or of columns)");
-        GetResidualMatrix(mx, mod, (size_t)a, o3);
-        reuse_verdict("GetResidualMatrix", "both-dims-differ", m_same(o3, want), n, p, scaling, a, o3, want, "held a matrix with other numbers of rows and columns");
-        vx_transition(4); DelMatrix(&want); DelMatrix(&sub); DelMatrix(&o1); DelMatrix(&o2); DelMatrix(&o3); }
+        if (rot == 0) { matrix *sub = m_toprows(mx, n - 1); initMatrix(&o); GetResidualMatrix(sub, mod, (size_t)a, o); DelMatrix(&sub); }
+        else o = rot == 1 ? m_junk(n, p + 1) : m_junk(n + 2, p + 3);
+        GetResidualMatrix(mx, mod, (size_t)a, o);
+        reuse_verdict("GetResidualMatrix", rot < 2 ? "one-dim-differs" : "both-dims-differ", m_same(o, want), n, p, scaling, a, o, want, OTHER_HOW[rot]);
+        vx_transition(2); DelMatrix(&want); DelMatrix(&o); }
     }
   }
 
@@ -260,34 +265,33 @@ static void body(void) {
     DelMatrix(&xr); DelMatrix(&ps);
   }
 
-  /* ---- reused outputs of the two predictors, on EVERY execution (any npc, any processor count): same object twice, same object
-   * after a call with another npc, objects that held another shape (filled by a call on n-1 objects / with npc-1 where the
-   * API can produce such a shape, hand-filled otherwise) */
-  { matrix *sub = m_toprows(mx, n - 1), *tsub = m_toprows(mod->scores, n - 1), *got, *want, *o1, *o2, *o3; int ok;
+  /* ---- reused outputs of the two predictors, on EVERY execution (any npc, any processor count): the same object twice (and after a
+   * call with another npc where that keeps the shape), then ONE other previous shape in rotation (rot): rows differ = object filled
+   * by the call on n-1 objects; columns differ = filled by the call with npc-1 where the API can produce such a shape, hand-filled
+   * otherwise; both differ */
+  { matrix *got, *want, *o; int ok;
     /* PCAScorePredictor -> n x npc */
-    initMatrix(&got); initMatrix(&o1);
+    initMatrix(&got);
     fit_begin(nproc, real_threads, "nonterm|PCAScorePredictor");
     PCAScorePredictor(mx, mod, (size_t)a, got); want = hm_copy(got);
     PCAScorePredictor(mx, mod, (size_t)a, got); ok = m_same(got, want);
-    if (a > 1) { initMatrix(&o2); PCAScorePredictor(mx, mod, (size_t)(a - 1), o2); initMatrix(&o3); PCAScorePredictor(sub, mod, (size_t)(a - 1), o3); } else { o2 = m_junk(n, a + 1); o3 = m_junk(n + 2, a + 3); }
     reuse_verdict("PCAScorePredictor", "same-shape", ok, n, p, scaling, a, got, want, "holds an earlier result of the same shape");
-    PCAScorePredictor(sub, mod, (size_t)a, o1); PCAScorePredictor(mx, mod, (size_t)a, o1); PCAScorePredictor(mx, mod, (size_t)a, o2);
-    reuse_verdict("PCAScorePredictor", "one-dim-differs", m_same(o1, want) && m_same(o2, want), n, p, scaling, a, m_same(o1, want) ? o2 : o1, want, "held the scores of another number of objects (or of components)");
-    PCAScorePredictor(mx, mod, (size_t)a, o3);
-    reuse_verdict("PCAScorePredictor", "both-dims-differ", m_same(o3, want), n, p, scaling, a, o3, want, "held the scores of other numbers of objects and components");
-    vx_transition(5); DelMatrix(&got); DelMatrix(&want); DelMatrix(&o1); DelMatrix(&o2); DelMatrix(&o3);
+    if (rot == 0 || a > 1) { matrix *sub = m_toprows(mx, n - 1); initMatrix(&o); PCAScorePredictor(rot == 1 ? mx : sub, mod, (size_t)(rot == 0 ? a : a - 1), o); DelMatrix(&sub); }
+    else o = rot == 1 ? m_junk(n, a + 1) : m_junk(n + 2, a + 3);
+    PCAScorePredictor(mx, mod, (size_t)a, o);
+    reuse_verdict("PCAScorePredictor", rot < 2 ? "one-dim-differs" : "both-dims-differ", m_same(o, want), n, p, scaling, a, o, want, OTHER_HOW[rot]);
+    vx_transition(2); DelMatrix(&got); DelMatrix(&want); DelMatrix(&o);
     /* PCAIndVarPredictor -> n x p for every npc */
-    initMatrix(&got); initMatrix(&o1); o2 = m_junk(n, p + 1); o3 = m_junk(n + 2, p + 3);
+    initMatrix(&got);
     PCAIndVarPredictor(mod->scores, mod->loadings, mod->colaverage, mod->colscaling, (size_t)a, got); want = hm_copy(got);
     PCAIndVarPredictor(mod->scores, mod->loadings, mod->colaverage, mod->colscaling, (size_t)a, got); ok = m_same(got, want);
     if (a > 1) { PCAIndVarPredictor(mod->scores, mod->loadings, mod->colaverage, mod->colscaling, (size_t)(a - 1), got); PCAIndVarPredictor(mod->scores, mod->loadings, mod->colaverage, mod->colscaling, (size_t)a, got); ok = ok && m_same(got, want); vx_transition(1); }
     reuse_verdict("PCAIndVarPredictor", "same-shape", ok, n, p, scaling, a, got, want, "holds an earlier result of the same shape");
-    PCAIndVarPredictor(tsub, mod->loadings, mod->colaverage, mod->colscaling, (size_t)a, o1); PCAIndVarPredictor(mod->scores, mod->loadings, mod->colaverage, mod->colscaling, (size_t)a, o1);
-    PCAIndVarPredictor(mod->scores, mod->loadings, mod->colaverage, mod->colscaling, (size_t)a, o2);
-    reuse_verdict("PCAIndVarPredictor", "one-dim-differs", m_same(o1, want) && m_same(o2, want), n, p, scaling, a, m_same(o1, want) ? o2 : o1, want, "held a matrix with another number of rows (or of columns)");
-    PCAIndVarPredictor(mod->scores, mod->loadings, mod->colaverage, mod->colscaling, (size_t)a, o3);
-    reuse_verdict("PCAIndVarPredictor", "both-dims-differ", m_same(o3, want), n, p, scaling, a, o3, want, "held a matrix with other numbers of rows and columns");
-    vx_transition(5); DelMatrix(&got); DelMatrix(&want); DelMatrix(&o1); DelMatrix(&o2); DelMatrix(&o3); DelMatrix(&sub); DelMatrix(&tsub); }
+    if (rot == 0) { matrix *tsub = m_toprows(mod->scores, n - 1); initMatrix(&o); PCAIndVarPredictor(tsub, mod->loadings, mod->colaverage, mod->colscaling, (size_t)a, o); DelMatrix(&tsub); }
+    else o = rot == 1 ? m_junk(n, p + 1) : m_junk(n + 2, p + 3);
+    PCAIndVarPredictor(mod->scores, mod->loadings, mod->colaverage, mod->colscaling, (size_t)a, o);
+    reuse_verdict("PCAIndVarPredictor", rot < 2 ? "one-dim-differs" : "both-dims-differ", m_same(o, want), n, p, scaling, a, o, want, OTHER_HOW[rot]);
+    vx_transition(2); DelMatrix(&got); DelMatrix(&want); DelMatrix(&o); }
 
   /* ---- processor count: nproc workers give the sequential result */
   if (nproc != 1) {
